@@ -147,8 +147,9 @@ where
 
         for sender in self.tracker.sessions.values_mut() {
             // best effort to send the command to each session this isn't critical so we wouldn't
-            // want to slow the server down by awaiting it
-            let _ = sender.send(command).await;
+            // want to slow the server down by awaiting it: a session that is busy (inside a request
+            // handler) with a full command queue must not stall the accept loop and the shutdown
+            let _ = sender.try_send(command);
         }
     }
 
